@@ -18,18 +18,36 @@ def _arms(e: ast.AST) -> List[ast.AST]:
 
 
 # ---------------------------------------------------------------- select projection
-@rule("C01.R8", ["C01", "C07", "C05", "C10"], min_instances=4, design="3.1")
+@rule("C01.R8", ["C01", "C07", "C05", "C10"], min_instances=2, design="3.1")
 def select_strips_exactly_the_prefix(ctx):
     """TinyFlux.select derives a tag/field key from a select key only by cutting the literal prefix it tested for (`key[5:]` after `tags.`, `key[7:]` after `fields.`); the key text itself may contain dots."""
-    f = ctx.prog.func("TinyFlux.select", "C01.R8")
+    sel = ctx.prog.func("TinyFlux.select", "C01.R8")
     n = 0
-    # loop variables over the requested keys
+    # select itself, plus any function of database.py that tests a key for the "tags."/"fields." prefixes
+    funcs = [sel] + [g for g in ctx.prog.all_funcs() if g.module == "database" and g is not sel and any(
+        isinstance(c, ast.Call) and isinstance(c.func, ast.Attribute) and c.func.attr == "startswith" and c.args
+        and const_value(c.args[0]) in ("tags.", "fields.") for c in walk_local(g.node))]
+    total_keyvars = 0
+    for f in funcs:
+        n_here, obs = _key_cuts(ctx, f)
+        n += n_here
+        yield from obs
+    if n < 2:
+        raise AnalysisError("C01.R8", f"select: expected key cuts for tags and fields, found {n}")
+
+
+def _key_cuts(ctx, f: Func):
+    n = 0
+    obs = []
+    # variables holding one select key: loop variables over the requested keys, or whatever startswith() is asked of
     keyvars = set()
     for lp in walk_local(f.node):
-        if isinstance(lp, ast.For) and isinstance(lp.target, ast.Name) and "keys" in norm(lp.iter):
+        if isinstance(lp, (ast.For, ast.comprehension)) and isinstance(lp.target, ast.Name) and "keys" in norm(lp.iter):
             keyvars.add(lp.target.id)
-    if not keyvars:
-        raise AnalysisError("C01.R8", "select: loop over the requested keys not found")
+    for c in walk_local(f.node):
+        if isinstance(c, ast.Call) and isinstance(c.func, ast.Attribute) and c.func.attr == "startswith" and c.args \
+                and const_value(c.args[0]) in ("tags.", "fields.") and isinstance(c.func.value, ast.Name):
+            keyvars.add(c.func.value.id)
     for x in walk_local(f.node):
         if isinstance(x, ast.Name) and x.id in keyvars and isinstance(x.ctx, ast.Load):
             p = getattr(x, "_parent", None)
@@ -42,6 +60,9 @@ def select_strips_exactly_the_prefix(ctx):
                 continue
             if isinstance(p, (ast.FormattedValue, ast.JoinedStr)):
                 continue
+            if isinstance(p, ast.Call) and any(a is x for a in p.args) and isinstance(p.func, ast.Name) \
+                    and any(g_.name == p.func.id and g_.module == "database" for g_ in ctx.prog.all_funcs()):
+                continue  # handed on, whole, to a function of this module (checked there)
             if isinstance(p, ast.Subscript) and isinstance(p.slice, ast.Slice) and p.slice.upper is None and p.slice.step is None:
                 n += 1
                 cut = const_value(p.slice.lower) if p.slice.lower is not None else 0
@@ -59,24 +80,24 @@ def select_strips_exactly_the_prefix(ctx):
                 else:
                     # else-branch: every other documented form was excluded; the remaining prefix is the
                     # longest literal prefix the validation loop accepts that is not excluded here
-                    accepted = sorted({const_value(c.args[0]) for c in walk_local(f.node) if isinstance(c, ast.Call)
+                    accepted = sorted({const_value(c.args[0]) for g_ in ctx.prog.all_funcs() if g_.module == "database"
+                                       for c in walk_local(g_.node) if isinstance(c, ast.Call)
                                        and isinstance(c.func, ast.Attribute) and c.func.attr == "startswith" and c.args
-                                       and isinstance(const_value(c.args[0]), str)})
+                                       and const_value(c.args[0]) in ("tags.", "fields.")})
                     rest = [a for a in accepted if a not in lits]
                     want = len(rest[0]) if len(rest) == 1 else None
                     which = rest[0] if len(rest) == 1 else "?"
                 ok = want is not None and cut == want
-                yield Ob("C01.R8", ["C01", "C07", "C05", "C10"], f"{f.qual} | key cut | {norm(p)}{occ(f, p)}", ok,
+                obs.append(Ob("C01.R8", ["C01", "C07", "C05", "C10"], f"{f.qual} | key cut | {norm(p)}{occ(f, p)}", ok,
                          f"cuts the {want} characters of {which!r}" if ok else
-                         f"`{norm(p)}` cuts {cut} characters where the prefix {which!r} has {want}", ctx.prog.loc(p))
+                         f"`{norm(p)}` cuts {cut} characters where the prefix {which!r} has {want}", ctx.prog.loc(p)))
                 continue
             n += 1
-            yield Ob("C01.R8", ["C01", "C07", "C05", "C10"], f"{f.qual} | key cut | {norm(getattr(p, '_parent', p), 60)}{occ(f, x)}", False,
+            obs.append(Ob("C01.R8", ["C01", "C07", "C05", "C10"], f"{f.qual} | key cut | {norm(getattr(p, '_parent', p), 60)}{occ(f, x)}", False,
                      f"`{norm(getattr(p, '_parent', p), 60)}` derives the tag/field key from the select key by something other than "
                      f"cutting the tested prefix: keys that contain '.' (or the prefix text again) address another key",
-                     ctx.prog.loc(x))
-    if n < 4:
-        raise AnalysisError("C01.R8", f"select: expected 4 key cuts (tags/fields x index/scan), found {n}")
+                     ctx.prog.loc(x)))
+    return n, obs
 
 
 # ---------------------------------------------------------------- updater parameters
